@@ -217,6 +217,11 @@ type nodeCase struct {
 	Expect string // "introduced" | "disconnect" | "observe" (DISC: exempt, only 'not introduced' is checked)
 	Why    string // what the model says decides the case
 	Class  string // intro class used ("" if none)
+	// listen addresses the node may legitimately put into its peer list because of this case: the one
+	// announced by an introduction the model judges valid (wherever it stands in the order: a disconnect is
+	// asynchronous, a valid introduction queued behind the deciding message is still handled), and the
+	// addresses advertised in peer lists
+	PeerListOK []string
 }
 
 // planCase builds case number i of a node's list
@@ -295,6 +300,10 @@ func planCase(i, ni int, rng *rand.Rand, own ownParams, genesis [32]byte, mirror
 		switch s.Kind {
 		case "givp":
 			shape = append(shape, "GIVP")
+			for k := 4; k+6 <= len(s.Body); k += 6 {
+				ip := binary.LittleEndian.Uint32(s.Body[k:])
+				c.PeerListOK = append(c.PeerListOK, fmt.Sprintf("%d.%d.%d.%d:%d", byte(ip>>24), byte(ip>>16), byte(ip>>8), byte(ip), binary.LittleEndian.Uint16(s.Body[k+4:])))
+			}
 		case "disc":
 			shape = append(shape, "DISC")
 			if c.Expect == "" {
@@ -315,6 +324,9 @@ func planCase(i, ni int, rng *rand.Rand, own ownParams, genesis [32]byte, mirror
 				panic("node-level introduction class with undecided verdict: " + c.Class)
 			}
 			shape = append(shape, "INTR("+want.String()+")")
+			if want == vValid {
+				c.PeerListOK = append(c.PeerListOK, fmt.Sprintf("127.0.0.1:%d", port))
+			}
 			if c.Expect == "" {
 				if want == vValid {
 					c.Expect, c.Why = "introduced", "valid introduction in connected state"
@@ -431,6 +443,7 @@ func runNodeLeg(r *vf.Run) {
 		p0.Close()
 
 		used := map[uint32]bool{own.Mirror: true}
+		peerListOK := map[string]bool{}
 		for i := 0; i < per; i++ {
 			if r.Violations() > 20 {
 				break
@@ -444,6 +457,9 @@ func runNodeLeg(r *vf.Run) {
 				}
 			}
 			c := planCase(i, ni, rng, own, genesis, mirror)
+			for _, a := range c.PeerListOK {
+				peerListOK[a] = true
+			}
 			runNodeCase(r, proc, c, ni, i)
 			if !proc.Alive() {
 				break
@@ -463,7 +479,24 @@ func runNodeLeg(r *vf.Run) {
 		if !alive || headline != "" {
 			r.Violation("node-crash", map[string]string{"leg": "node", "headline": headline, "frame": frame}, map[string]interface{}{"stderr_tail": tail(proc.Stderr(), 4000)})
 		}
-		proc.Stop(20 * time.Second)
+		if !proc.Stop(20*time.Second) || !alive {
+			return
+		}
+		// the peer list the node saved on its way down: nothing but addresses from valid introductions
+		// (and advertised peers) may be in it
+		pb, err := os.ReadFile(filepath.Join(opts.DataDir, "peers.json"))
+		var peers map[string]json.RawMessage
+		if err != nil || json.Unmarshal(pb, &peers) != nil {
+			return
+		}
+		r.Count("node.peerlist.nodes-checked", 1)
+		for a := range peers {
+			r.Count("node.peerlist.entries", 1)
+			if !peerListOK[a] {
+				r.Violation("rejected-introduction-counted-as-introduced", map[string]string{"leg": "node", "evidence": "peer-list", "entry": a},
+					map[string]interface{}{"node": ni, "peer_list": string(pb)})
+			}
+		}
 	})
 
 	for _, id := range allTypes {
@@ -481,6 +514,8 @@ func runNodeLeg(r *vf.Run) {
 	r.Floor("node.verdict.disconnected.by-invalid-intro", int64(r.Pick(50, 1000)))
 	r.Floor("node.api.gone-after-disconnect", int64(r.Pick(200, 4000)))
 	r.Floor("node.alive-at-end", int64(nodes))
+	r.Floor("node.peerlist.nodes-checked", int64(nodes/2))
+	r.Floor("node.peerlist.entries", int64(r.Pick(50, 1000)))
 }
 
 func tail(b []byte, n int) string {
